@@ -1162,6 +1162,26 @@ class Engine:
         return self.models["dictcomp"](self, st, node)
 
     def ev_Call(self, node, st):
+        if getattr(self, "nested_append", False) and isinstance(node.func, ast.Attribute) and node.func.attr == "append" and \
+                isinstance(node.func.value, ast.Subscript) and len(node.args) == 1 and not node.keywords:
+            # X[i].append(v) on a list of lists: modelled as X[i] = X[i] + [v].  Sound when the row is not reachable through another name that is
+            # read later (rows of nested lists have no identity in this engine); the contract that switches this on states that assumption.
+            base = self.ev(node.func.value.value, st)
+            if isinstance(base, VRef) and isinstance(st.heap[base.addr], HSeq) and not st.heap[base.addr].numpy:
+                row = self.ev(node.func.value, st)
+                if isinstance(row, VMaybeNone):
+                    self.oblige(st, "the list appended to is not None", z3.Not(row.isnone), "safety", node)
+                    row = row.val
+                if isinstance(row, VRef) and isinstance(st.heap[row.addr], HSeq):
+                    ro = st.heap[row.addr]
+                    v = self.ev(node.args[0], st)
+                    n, g = ro.len, ro.get
+                    if ro.note == "empty":
+                        new = st.alloc(HSeq(1, lambda k: v, etype=ro.etype))
+                    else:
+                        new = st.alloc(HSeq(n + 1, lambda k: ite(k == n, v, g(k)), etype=ro.etype))
+                    self.store_subscript(base, node.func.value.slice, new, st, node)
+                    return VNone()
         fn = self.ev(node.func, st)
         args = []
         for a in node.args:
